@@ -721,8 +721,10 @@ class SessionStream(C.Stream):
                     st = ("err", died[th]) if th in died else ("ok", None)
                     if how and how != "exc" and died.get(th) == _THREAD_END_CLASSES[how].__name__:
                         st = ("ok", None)       # the thread died of what its target raised, AFTER Thread.run's epilogue
-                    if how == "exc" and st[0] == "ok":
-                        accepted += 1           # (the model sees two calls: the error log of `except Exception`, then the epilogue)
+                    if how == "exc":
+                        # the model sees two calls: the error log of `except Exception` (which the real thread has issued in
+                        # any case), then the epilogue — which may be the call that fails (AssertionError: no started step)
+                        accepted += 1
                 else:
                     if tid in lccthreads and lccthreads[tid][0].is_alive():
                         _, q, ack = lccthreads[tid]
